@@ -417,4 +417,60 @@ theorem queueRecv_live (v : Variant) (frames : List (List Byte)) (ms : List Msg)
     rw [h21]
     exact hdone _ hi3 (hp21 h21).2.2
 
+/-- **`mpt_queue_recv` never waits for data that is there**: the queue holds the rest of frame `k` of a valid
+    stream up to its delimiter; the call delivers (1) or asks for space (`MissingBuffer`), it never answers
+    "no message yet" (0) or `MissingData` -/
+theorem queueRecv_answers (v : Variant) (frames : List (List Byte)) (ms : List Msg) (hcar : Carries v frames ms)
+    (q : DecodeQueue) (hc : q.codec = some v) (fed future : List Byte) (hfut : fed ++ future = frames.flatten) (k : Nat)
+    (h : DInv q) (hs : SlackOk v q.st) (hph : Phase v frames q.st q.ring.content fed k)
+    (pre junk : List Byte) (hun : q.ring.content.drop q.st.curr = pre ++ 0 :: junk) (hnz : ∀ x ∈ pre, x ≠ 0) :
+    ∃ q' r, queueRecv q = .ok (q', r) ∧ (r = 1 ∨ r = Err.MissingBuffer.code) := by
+  have hcl := content_length q.ring h.wf.1 h.wf.2
+  have h0 : q.ring.len ≠ 0 := by
+    intro hz
+    have := congrArg List.length hun
+    rw [List.length_drop, hcl, hz] at this
+    simp at this
+  rw [queueRecv_unfold v q hc h0]
+  obtain ⟨hi1, hsl1, hl1, _, _, _⟩ := decCall_inv v q h
+  have hs1 := decCall_slack v frames ms hcar q fed future hfut k h hs hph
+  obtain ⟨hp0, hp1⟩ := decCall_phase v frames ms hcar q fed future hfut k h hph
+  obtain ⟨hret, _, hrest⟩ := decCall_live v frames ms hcar q fed future hfut k h hs hph pre junk hun hnz
+  have hdone : ∀ (qx : DecodeQueue), DInv qx → qx.st.msg = some qx.st.len → ∃ q', afterCall qx (.val 1) = .ok (q', 1) := by
+    intro qx hix hm
+    obtain ⟨n, p', r', e, _, _⟩ := recvDone_eq qx hix
+    unfold afterCall
+    simp only
+    rw [e]
+    have h1 : (if qx.st.msg.isSome = true then (1 : Int) else 0) = 1 := by rw [hm]; rfl
+    rw [h1]
+    exact ⟨_, rfl⟩
+  rcases hret with h1 | hmb
+  · rw [if_neg (by rw [h1]; simp), h1]
+    obtain ⟨q', e⟩ := hdone _ hi1 (hp1 h1).2.2
+    exact ⟨q', 1, e, Or.inl rfl⟩
+  · by_cases hfull : (decCall v q).1.ring.len < (decCall v q).1.ring.max
+    · rw [if_pos ⟨hmb, hfull⟩]
+      obtain ⟨hph1, _⟩ := hp0 (by rw [hmb]; simp)
+      obtain ⟨hctx1, hmsg1, pre', hun1, hnz1, hlen1⟩ := hrest (by rw [hmb]; simp)
+      obtain ⟨e1, hi2, _, _, hst2, _, _, hun2, hreg2⟩ := recvRetry_eq v (decCall v q).1 hi1 hfull
+      rw [e1]
+      have hs2 : SlackOk v (retryQ (decCall v q).1).st := by rw [hst2]; exact slackOk_grow hs1 _
+      have hcl2 := content_length (retryQ (decCall v q).1).ring hi2.wf.1 hi2.wf.2
+      have hph2 : Phase v frames (retryQ (decCall v q).1).st (retryQ (decCall v q).1).ring.content fed k := by
+        rw [hst2]
+        exact hph1.move _ (by have := hi2.bnd.tot; rw [hst2] at this; simpa [hcl2] using this) hun2 hreg2
+      obtain ⟨hp20, hp21⟩ := decCall_phase v frames ms hcar _ fed future hfut k hi2 hph2
+      obtain ⟨hret2, _, _⟩ := decCall_live v frames ms hcar _ fed future hfut k hi2 hs2 hph2 pre' junk
+        (by rw [hst2]; simp only; rw [hun2]; exact hun1) hnz1
+      obtain ⟨hi3, _⟩ := decCall_inv v _ hi2
+      rcases hret2 with h21 | h2mb
+      · rw [h21]
+        obtain ⟨q', e⟩ := hdone _ hi3 (hp21 h21).2.2
+        exact ⟨q', 1, e, Or.inl rfl⟩
+      · rw [h2mb]
+        exact ⟨_, _, rfl, Or.inr rfl⟩
+    · rw [if_neg (fun hh => hfull hh.2), hmb]
+      exact ⟨_, _, rfl, Or.inr rfl⟩
+
 end Mpt.CQ
